@@ -144,7 +144,8 @@ def fmtText (tgt : Ty) (rd rq : TextRes) : String :=
     a blank prefix may be consumed without delivering a value; refusal is always admissible -/
 def altsText (tgt : Ty) (s : List Nat) : String :=
   let oks := (List.range (s.length + 1)).filterMap fun k =>
-    if (s.take k).all isSpace then some s!"dst=ok n={k} out=- nodst=ok n={k} ; *" else
+    -- "no value": nothing consumed, nothing stored, only for a text that is blank as a whole
+    if k = 0 then (if s.all isSpace then some "dst=ok n=0 out=- nodst=ok n=0 ; *" else none) else
     if tgt = .c then
       -- a character target receives the first non-blank character, which must be printable
       let c := s.getD (k - 1) 0
@@ -218,7 +219,7 @@ def ftextLine (fn : String) (tgt : Ty) (s0 : List Nat) (alts : List (Nat × Stri
   let nn := if r.1 = "ok" then r.2.1 else "-"
   let qn := if q.1 = "ok" then q.2.1 else "-"
   let oks := (List.range (s0.length + 1)).filterMap fun k =>
-    if (s0.take k).all isSpace then some s!"dst=ok n={k} out=- nodst=ok n={k} ; *" else
+    if k = 0 then (if s0.all isSpace then some "dst=ok n=0 out=- nodst=ok n=0 ; *" else none) else
     match alts.find? (·.1 = k) with
     | some (_, v) => if v = "ovf" ∨ v = "-ovf" ∨ altInexact v then none else some s!"dst=ok n={k} out={v} nodst=ok n={k} ; *"
     | none => none
@@ -262,7 +263,8 @@ def step (_ : Unit) (w : List String) : Unit × String :=
       match parseSrc src v with
       | some x =>
         let f := fun d => if long then consumeLong src x d else consume src tgt x d
-        ((), fmtVal tgt (f true) (f false) ++ " | S " ++ altsVal (expected src tgt x))
+        -- `mpt_iterator_consume` returns the type code of the value it consumed: observable
+        ((), fmtVal tgt (f true) (f false) true ++ " | S " ++ altsVal (expected src tgt x) (some src.code))
       | none => ((), "bad-op")
     | _, _ => ((), "bad-op")
   | ["c", "argv", s, t, v] =>
@@ -271,7 +273,7 @@ def step (_ : Unit) (w : List String) : Unit × String :=
       match parseSrc src v with
       | some x =>
         let f := fun d => if long then argvConsumeLong src x d else argvConsume src tgt x d
-        ((), fmtVal tgt (f true) (f false) ++ " | S " ++ altsVal (expected src tgt x))
+        ((), fmtVal tgt (f true) (f false) true ++ " | S " ++ altsVal (expected src tgt x) (some src.code))
       | none => ((), "bad-op")
     | _, _ => ((), "bad-op")
   | "c" :: "fpoint" :: "val" :: s :: vals =>
